@@ -8,7 +8,7 @@ use std::path::PathBuf;
 use std::time::Duration;
 use tokio::fs::File;
 use tokio::{
-    io::{AsyncRead, AsyncReadExt, AsyncSeek, AsyncSeekExt, AsyncWrite},
+    io::{AsyncRead, AsyncReadExt, AsyncSeek, AsyncSeekExt, AsyncWrite, AsyncWriteExt},
     task::spawn_blocking,
 };
 use url::Url;
@@ -314,6 +314,12 @@ where
             ))?;
 
     let mut output_file = output.into_inner();
+    // A failed write to a tokio file is only reported by a later write or flush; without
+    // this the error of the last write would be lost and the clone reported as successful.
+    output_file
+        .flush()
+        .await
+        .context(format!("Failed to write to {}", opts.output.display()))?;
     if !output_is_block_dev {
         // Resize output file to same size as the archive source
         output_file
